@@ -281,6 +281,30 @@ func genC06Case(t *rapid.T) C06Case {
 	if inTxn {
 		c.Ops = append(c.Ops, SQLOp{Kind: "commit"})
 	}
+	if len(others) > 0 && rapid.IntRange(0, 3).Draw(t, "sametime") == 0 {
+		// Targeted region: a cell written, its row deleted and the key inserted again without
+		// that column (or with NULL), all under ONE write time (what a transaction without an
+		// explicit write_time does): the old value must not come back
+		k := key("stk")
+		col := rapid.SampledFrom(others).Draw(t, "stcol")
+		v := vals.Draw(t, "stv")
+		pat := []SQLOp{
+			{Kind: "ins", Q: "insert into %T(k," + col + ") values (?,?)", Args: []Val{k, v}, Rows: 1},
+			{Kind: "del", Q: "delete from %T where k = ?", Args: []Val{k}, KeepTime: true},
+		}
+		if rapid.Bool().Draw(t, "stexplicit") {
+			pat = append(pat, SQLOp{Kind: "ins", Q: "insert into %T(k," + col + ") values (?,?)", Args: []Val{k, vNull()}, Rows: 1, KeepTime: true})
+		} else {
+			pat = append(pat, SQLOp{Kind: "ins", Q: "insert into %T(k) values (?)", Args: []Val{k}, Rows: 1, KeepTime: true})
+		}
+		pat = append(pat, SQLOp{Kind: "sel", Q: "select * from %T order by k", Ordered: true})
+		// outside any transaction of the case: at the end, or before the first BEGIN
+		pos := len(c.Ops)
+		if rapid.Bool().Draw(t, "stfront") {
+			pos = 0
+		}
+		c.Ops = append(append(append([]SQLOp{}, c.Ops[:pos]...), pat...), c.Ops[pos:]...)
+	}
 	// inside transactions, some statements run under the previous statement's write time
 	// (what happens by default when the connection sets none): non-decreasing, not increasing
 	in := false
